@@ -204,7 +204,15 @@ func (c *ctx) yields(fc *fileCtx, list []ast.Stmt, emptyOff int, emptyPos token.
 		}
 		n++
 		id := c.site(fc, s.Pos(), "yield", "")
-		fc.insert(fc.off(c.fset, s.Pos()), fmt.Sprintf("%s.Yield(%d); ", alias, id))
+		text := fmt.Sprintf("%s.Yield(%d); ", alias, id)
+		if _, isDefer := s.(*ast.DeferStmt); isDefer {
+			// Deferred calls run last-in first-out: a deferred yield registered just before
+			// runs right AFTER the original deferred call, i.e. between the function's
+			// clean-up (unlock, pool.Put, pop) and its caller using the result.
+			id2 := c.site(fc, s.Pos(), "yield", "(after deferred call)")
+			text += fmt.Sprintf("defer %s.Yield(%d); ", alias, id2)
+		}
+		fc.insert(fc.off(c.fset, s.Pos()), text)
 	}
 	if n == 0 && len(list) == 0 {
 		id := c.site(fc, emptyPos, "yield", "(empty block)")
